@@ -323,28 +323,45 @@ def defer():
         return
 
     delay = []
-    for t in filter(
-        lambda j: j.get('status') not in [State.running, State.waiting], per
-    ):
-        t.set('status', State.delayed)
-        for p in t.get('period'):
+    now = datetime.datetime.now(datetime.UTC)
+    # just after the next midnight is the earliest instant at which _delay()
+    # looks beyond an occurrence that was due today
+    tomorrow = 86401 - ((now.hour * 60 + now.minute) * 60 + now.second)
+    for t in {id(j): j for j in per}.values():
+        if t not in que:
+            t.set('status', State.delayed)
+
+        fired = t.get('fired') or {}
+        t.set('fired', fired)
+        for i, p in enumerate(t.get('period')):
             try:
                 ts = _delay(p).total_seconds()
 
                 if ts <= 300.0:
-                    que.append(t)
-                    que.sort(key=lambda i: i.get('level'))
-                    t.set('status', State.waiting)
-                    t.set('event', 'Periodic timer')
+                    occurrence = (now + datetime.timedelta(seconds=ts)).date()
 
-                    if _is_asp(t):
-                        t.get('todo').add('__all__')
-                    else:
-                        t.get('todo').update(dawgie.db.targets())
+                    if fired.get(i) != occurrence:
+                        fired[i] = occurrence
 
-                    log.debug(
-                        'defer() - moving task %s to the job queue', t.tag
-                    )
+                        if t not in que:
+                            que.append(t)
+                            que.sort(key=lambda i: i.get('level'))
+                            t.set('status', State.waiting)
+
+                        t.set('event', 'Periodic timer')
+
+                        if _is_asp(t):
+                            t.get('todo').add('__all__')
+                        else:
+                            t.get('todo').update(dawgie.db.targets())
+
+                        log.debug(
+                            'defer() - moving task %s to the job queue', t.tag
+                        )
+
+                    if p.moment.day is None:
+                        # look for the next period once this day is over
+                        delay.append(tomorrow)
                 else:
                     delay.append(ts)
             except _DelayNotKnowableError:
